@@ -116,6 +116,14 @@ func Main(opt Options) int {
 			}
 		}
 		ex.CrossRef = CrossReference(opt, spec)
+		if bce, missing := BCECrossCheck(opt, rep); bce != nil {
+			ex.CrossRef["compiler_bounds_checks"] = bce
+			for _, m := range missing {
+				o := Ob{Rule: "COVERAGE", Key: "bce:" + m, Pos: m, Desc: "a bounds check the compiler kept has a matching obligation", OK: false, Why: "no obligation was generated for this line: the obligation enumerator missed an instruction class"}
+				rep.Obs = append(rep.Obs, o)
+				out.Violations = append(out.Violations, o)
+			}
+		}
 	}
 	ex.WallS = time.Since(t0).Seconds()
 	if err := rep.WriteEvidence(filepath.Join(opt.OutDir, "evidence"), out, ex); err != nil {
